@@ -17,18 +17,18 @@ type sampleReader struct {
 	err    error // 首个读取错误
 }
 
-// read 读取一个样本；出现过错误后不再读取
+// read 读取一个完整样本；出现过错误后不再读取。
+// 随机源一次 Read 可能只返回部分数据，因此使用 io.ReadFull 读满缓冲区，
+// 并且整个读取过程加锁，保证每个样本取自随机源中连续的字节。
 func (r *sampleReader) read(buf []byte) error {
-	if err := r.firstErr(); err != nil {
-		return err
+	r.mu.Lock()
+	defer r.mu.Unlock()
+	if r.err != nil {
+		return r.err
 	}
-	_, err := r.source.Read(buf)
+	_, err := io.ReadFull(r.source, buf)
 	if err != nil {
-		r.mu.Lock()
-		if r.err == nil {
-			r.err = err
-		}
-		r.mu.Unlock()
+		r.err = err
 	}
 	return err
 }
